@@ -1,0 +1,55 @@
+//go:build verif
+
+package task
+
+// Exported shims for the runtime verification harness (build tag `verif`).
+// Add-only: nothing here is compiled into normal builds.
+//
+// Hook TASKS (task roles with trigger/await traits) need a *Task attached to
+// the task role. In the core these objects are created only by
+// newTaskForMesosOffer when a Mesos offer is matched; all identifying fields
+// are unexported. VerifNewTask builds the same object without an offer.
+
+import (
+	"fmt"
+
+	"github.com/AliceO2Group/Control/common"
+	"github.com/AliceO2Group/Control/common/controlmode"
+	"github.com/AliceO2Group/Control/common/gera"
+	"github.com/AliceO2Group/Control/core/task/channel"
+	"github.com/AliceO2Group/Control/core/task/sm"
+	"github.com/AliceO2Group/Control/core/task/taskclass"
+)
+
+// VerifParentRole is the (unexported) interface a task's parent role
+// implements; workflow's task roles satisfy it.
+type VerifParentRole = parentRole
+
+// VerifNewTask mirrors newTaskForMesosOffer: same fields, the task class is
+// given directly instead of being looked up in the manager's class cache and
+// the placement data (hostname, agent, executor) is given instead of being
+// taken from an offer; commandInfo (in the core filled by BuildTaskCommand at
+// deployment) is a minimal literal. The task is NOT added to any roster.
+func VerifNewTask(class *taskclass.Class, parent VerifParentRole, className, taskId, hostname, agentId, executorId string) *Task {
+	t := &Task{
+		name:       fmt.Sprintf("%s#%s", className, taskId),
+		parent:     parent,
+		className:  className,
+		hostname:   hostname,
+		agentId:    agentId,
+		offerId:    "verif-offer-" + taskId,
+		taskId:     taskId,
+		executorId: executorId,
+		properties: gera.MakeMap[string, string](),
+		state:      sm.STANDBY,
+		status:     INACTIVE,
+	}
+	t.GetTaskClass = func() *taskclass.Class { return class }
+	value := "/bin/true"
+	t.commandInfo = &common.TaskCommandInfo{
+		CommandInfo: common.CommandInfo{Value: &value},
+		ControlMode: controlmode.HOOK,
+	}
+	t.localBindMap = make(channel.BindMap)
+	return t
+}
